@@ -420,7 +420,7 @@ func dns(s pkig.CertSpec, names ...string) pkig.CertSpec {
 }
 
 func families() []pkig.Family {
-	return []pkig.Family{
+	fs := []pkig.Family{
 		// nested windows; a second intermediate certificate that never overlaps the leaf, a third that ends early
 		{Name: "nested", Specs: []pkig.CertSpec{win(pkig.Root(0, 0), 0, 1000), win(pkig.CA(1, 1, 0, 0), 100, 900),
 			win(ser(pkig.CA(1, 1, 0, 0), 1), 850, 950), win(ser(pkig.CA(1, 1, 0, 0), 2), 100, 500),
@@ -437,6 +437,10 @@ func families() []pkig.Family {
 		// two SPKI encodings of the issuer key: parents under different nodes are impossible, the walk picks one issuer node
 		{Name: "two-spki", Specs: []pkig.CertSpec{win(pkig.Root(0, 0), 0, 1000), win(pkig.Root(0, pkig.AltSPKI), 0, 800), win(pkig.CA(1, 1, 0, 0), 100, 900), win(pkig.Leaf(3, 4, 1, 1), 200, 700)}},
 	}
+	if !pkig.AltOK() {
+		fs = fs[:len(fs)-1]
+	}
+	return fs
 }
 
 func randomWindows(c *vh.Ctx, specs []pkig.CertSpec) []pkig.CertSpec {
@@ -455,7 +459,9 @@ func randomWindows(c *vh.Ctx, specs []pkig.CertSpec) []pkig.CertSpec {
 	return out
 }
 
-func selfSigned(s pkig.CertSpec) bool { return s.Subj == s.Iss && s.Key%pkig.AltSPKI == s.SKey%pkig.AltSPKI }
+func selfSigned(s pkig.CertSpec) bool {
+	return s.Subj == s.Iss && s.Key%pkig.AltSPKI == s.SKey%pkig.AltSPKI
+}
 
 func callsFor(c *vh.Ctx, p *pkig.PKI, perTarget int) []call {
 	var bounds []int64
